@@ -1,5 +1,5 @@
 /*VERIF
-{ "tu": "src/semaphore.c", "enforce": "dispatch_group_leave", "props": ["C07","C05","C17"],
+{ "tu": "src/semaphore.c", "enforce": "dispatch_group_leave", "props": ["C07","C05","C17","C19"],
   "nondet_volatile": true, "timeout": 180,
   "stub_note": "_dispatch_group_wake: logged call (own contract in h_group_wake)" }
 VERIF*/
